@@ -22,6 +22,12 @@ int main(int argc, char** argv)
         json got = jsonpath::json_query(doc, expr);
         if (got != want) { if (!bad) first = expr + " selects " + got.to_string() + ", the comparison defines " + want.to_string(); ++bad; }
     }
+    // arithmetic in filters (jsoncons extension): no crash and no sanitizer report for division by zero, INT64_MIN / -1, overflowing + - * and -INT64_MIN; exact results elsewhere
+    { json nd = json::parse(R"([{"a":7,"m":-9223372036854775808,"x":9223372036854775807,"u":18446744073709551615,"z":0}])");
+      const char* safe[] = {"$[?(@.a / @.z > 0)]", "$[?(@.a % @.z == 0)]", "$[?(@.m / -1 > 0)]", "$[?(@.m % -1 == 0)]", "$[?(@.x + 1 > 0)]", "$[?(@.m - 1 < 0)]", "$[?(@.x * 2 > 0)]", "$[?(-@.m > 0)]", "$[?(@.u / @.z > 0)]", "$[?(@.u % @.z > 0)]"};
+      for (const char* e : safe) { ++total; try { json r = jsonpath::json_query(nd, e); (void)r; } catch (const jsoncons::json_exception&) {} catch (const std::exception& ex) { if (!bad) first = std::string(e) + " lets " + ex.what() + " escape"; ++bad; } }
+      struct ex_case { const char* e; bool sel; }; const ex_case exact[] = {{"$[?(@.a / 2 == 3)]", true}, {"$[?(@.a % 4 == 3)]", true}, {"$[?(@.a * 3 == 21)]", true}, {"$[?(@.a - 9 == -2)]", true}, {"$[?(-@.a == -7)]", true}, {"$[?(@.a / -1 == -7)]", true}, {"$[?(@.a + 1 == 7)]", false}};
+      for (const ex_case& c : exact) { ++total; json r = jsonpath::json_query(nd, c.e); if ((r.size() == 1) != c.sel) { if (!bad) first = std::string(c.e) + " selects " + r.to_string(); ++bad; } } }
     if (bad) VX_REPRO(bad << " of " << total << " filters select other elements than the comparison defines, first: " << first);
     VX_NOREPRO("all " << total << " comparison filters select the elements the comparison defines");
 }
